@@ -11,10 +11,10 @@ from . import c10
 RULE = (
     "pair: a generated nested backtest whose sub-strategies have deterministic, calendar-gated stacks (any parent stack and allocation schedule incl. never/late/de-funding, parent "
     "capital 1e4..5e8, integer or fractional positions, any commission spec and spread) vs, for every sub-strategy, a stand-alone Backtest of the same definition over the same data "
-    "with the same settings. Oracle: child.prices of the nested run equals the stand-alone strategy.prices date for date (1e-12 relative), and the parent's universe column of the "
+    "with the same settings; one family has leveraged / short children on jumpy prices, which may go bankrupt on their own. Oracle: child.prices of the nested run equals the stand-alone strategy.prices date for date (1e-12 relative), and the parent's universe column of the "
     "child equals child.prices. non-trivial = the child trades at least twice and the parent's allocation to it changes at least once. distinct = distinct spec hashes."
 )
-ASSUMPTIONS = ["children use no RNG-based algos and are gated by a calendar scheduler (the statement's quantifier)", "stand-alone runs that go bankrupt are discarded"]
+ASSUMPTIONS = ["children use no RNG-based algos and are gated by a calendar scheduler (the statement's quantifier)", "stand-alone definitions that go bankrupt are compared too (their index freezes at the bankruptcy)"]
 BUILDS = {"quick": ["py"], "thorough": ["py", "cy"]}
 
 
@@ -48,7 +48,7 @@ def case_pair(ctx, spec):
         except Exception as e:
             raise Discard("stand-alone run raised: %s" % type(e).__name__)
         if b2.strategy.bankrupt:
-            raise Discard("stand-alone bankrupt")
+            labs.append("standalone_bankrupt")
         p_nested = np.asarray(child.prices, dtype=float)
         p_alone = np.asarray(b2.strategy.prices, dtype=float)
         if len(p_nested) != len(p_alone):
@@ -79,7 +79,11 @@ def pair_spec():
     two = gen.backtest_spec(nested=True, deterministic_children=True, min_dates=4, max_dates=18)
     # three levels: a middle strategy allocating among its own sub-strategies (possibly by their price history), some of them unfunded for a while
     three = gen.backtest_spec(nested=True, deterministic_children=True, min_dates=5, max_dates=16, depth3=True, max_sub=2)
-    return st.one_of(two, two, three)
+    # leveraged / short children on jumpy prices: the definition may lose more than its capital, alone and inside the tree alike
+    from . import c16
+
+    lev = c16.run_spec(kinds=("nested",)).map(lambda sp: {k: v for k, v in sp.items() if k not in ("kind", "carry")})
+    return st.one_of(two, two, three, lev)
 
 
 SUBS = {"pair": case_pair}
